@@ -95,6 +95,8 @@ def expect_cex(ctx, name, c, invs, st, what):
 
 
 def run(ctx):
+    if ctx.replay:
+        return h.replay_file(ctx)
     st = h.new_stats()
     q = ctx.quick
     notes = {}
